@@ -9,16 +9,18 @@ Rec == ndJsonDeserialize(IOEnv.TRACE)
 VARIABLES i, bad
 \* e.vecu8: the name a container-instance mapping "Vec<u8>" = Name configures for this run ("" when there is none)
 A0(e) == AbsC(e.rust, e.vecu8)
-Cfg(e) == [prefix |-> e.prefix, mapping |-> e.mapping, aliases |-> e.aliases, prims |-> TRUE]
+Cfg(e) == [prefix |-> e.prefix, mapping |-> e.mapping, aliases |-> e.aliases, renames |-> e.renames, prims |-> TRUE]
+\* e.noptr: the run was configured with Go's no_pointer_slice = true (TypeExpr!SliceOpt)
+FL(e, a) == ForLangO(e.lang, e.noptr, a)
 \* members: compare what is under the optional marker. A double option collapses to one option outside
 \* TypeScript, whether the backend prints it as marker + nullable type (T??) or as a single marker.
-MemberOk(e) == LET A == ForLang(e.lang, A0(e))
+MemberOk(e) == LET A == FL(e, A0(e))
                    U == Unopt(A)
-                   O == ForLang(e.lang, e.ty)
+                   O == FL(e, e.ty)
                    OU == IF e.lang # "typescript" /\ A.k = "opt" /\ O.k = "opt" THEN O.e ELSE O
                IN Conf(e.lang, Cfg(e), U, OU)
 TypeOk(e) == IF e.pos \in {"alias", "const"}
-             THEN Conf(e.lang, Cfg(e), ForLang(e.lang, A0(e)), ForLang(e.lang, e.ty))
+             THEN Conf(e.lang, Cfg(e), FL(e, A0(e)), FL(e, e.ty))
              ELSE MemberOk(e)
 Init == i = 1 /\ bad = <<>>
 Next == /\ i <= Len(Rec)
